@@ -1,4 +1,5 @@
 import PyemvGen.Mod.Common
+import PyemvProps.C11
 import PyemvGen.Mod.mac_mac3
 import PyemvGen.Mod.tools_ecb
 namespace Pyemv.ModRefines
@@ -9,5 +10,10 @@ theorem cvv_generate_cvc3 (k t a u : Bytes) : Gen.cvv.generate_cvc3 k t a u = ge
   simp only [tools_ecb, mac_mac3, bind, Except.bind, pure, Except.pure]
   repeat (first | rfl | split)
   all_goals simp_all
+
+/-- **C11 about the translated source**: five decimal digits denoting the 16-bit value -/
+theorem source_generate_cvc3 (k track atc un : Bytes) (hk : k.length = 16) (ha : atc.length = 2) (hu : un.length = 4) :
+    Gen.cvv.generate_cvc3 k track atc un = .ok (digits5 (C11.cvc3Value k track atc un)) := by
+  rw [cvv_generate_cvc3]; exact C11.cvc3_eq_spec k track atc un hk ha hu
 
 end Pyemv.ModRefines
